@@ -283,15 +283,35 @@ def oracle_c09(tr, fail, stats):
     if isinstance(tr.get("end"), str) and "TagActivatorError" in tr["end"]:
         fail("C09:handler-pool-exhausted", {"ini": meta["ini"], "seed": meta["seed"], "leg": len(tr["legs"]), "job": tr.get("job")},
              "the activator demanded more event handlers than the tagger owns")
+    # expected activation of every tagger, from the wiring alone (TagActivator: activate list, then deactivate list of the tagger
+    # of the preceding event; the start-of-run lists are applied at the first call and again after the start-of-run commit)
+    by_tag = {tg["tag"]: tg for tg in meta["taggers"]}
+    expected = {tg["tag"]: True for tg in meta["taggers"]}
+    start_tag = next((tg["tag"] for tg in meta["taggers"] if kinds[tg["tag"]] == "start"), None)
+
+    def apply(tag):
+        for a in by_tag[tag]["activates"]:
+            expected[a] = True
+        for dct in by_tag[tag]["deactivates"]:
+            expected[dct] = False
+    resumed = bool(tr.get("job", {}).get("resume"))
+    if start_tag is not None and not resumed:
+        apply(start_tag)
     for i, leg in enumerate(tr["legs"]):
         for h, ids in leg["created"]:
             ids_of[h] = ids
+        if i >= 1 and not resumed and leg.get("preceding") is not None:
+            apply(meta["handlers"][leg["preceding"]][0])
+        if resumed:
+            expected = dict(leg["activated"])      # the history before the dump is not in the trace
         if i >= 1:   # "after every committed event": leg i starts after the commit of leg i-1
-            for tag, fresh in leg["fresh"].items():
+            for tag, fresh in leg.get("fresh_pristine", leg["fresh"]).items():
                 k = kinds[tag]
                 if k == "start":
                     continue
                 pend = leg["pending"][tag]
+                if not isinstance(fresh, str) and not expected.get(tag, True):
+                    fresh = []          # a deactivated tagger generates nothing
                 if isinstance(fresh, str):
                     fail("C09:fresh-yield-raises", {"ini": meta["ini"], "seed": meta["seed"], "leg": i, "tagger": tag, "job": tr.get("job")},
                          "the tagger cannot generate from scratch: " + fresh)
@@ -308,7 +328,7 @@ def oracle_c09(tr, fail, stats):
                              "pending in-state identifier tuples differ from what the tagger generates from scratch")
                     if len(b):
                         stats["c09_nonempty:" + k] = stats.get("c09_nonempty:" + k, 0) + 1
-                elif leg["activated"][tag]:
+                elif expected.get(tag, True):
                     if len(pend) != len(fresh):
                         fail("C09:pending-count-differs",
                              {"ini": meta["ini"], "seed": meta["seed"], "leg": i, "tagger": tag, "pending": len(pend), "fresh": len(fresh),
